@@ -28,6 +28,13 @@ pub struct Case {
     pub req_sel: u64,
     pub extra_sup: Vec<u16>,
     pub extra_req: Vec<u16>,
+    /// when > 0 the required / supported list is lengthened to this many entries by repeating its
+    /// own entries (and, for `supported`, by unrelated optional types): "any lists" includes lists
+    /// longer than the message, than a machine word has bits, than an inline buffer holds
+    #[serde(default)]
+    pub long_req: u16,
+    #[serde(default)]
+    pub long_sup: u16,
 }
 
 fn dedup_keep_order(v: &[u16]) -> Vec<u16> {
@@ -157,6 +164,26 @@ fn test(c: &Case, st: &mut Stats) -> TestResult {
         }
     }
     // ---- reference verdict (RFC 8489 s6.3.1) -------------------------------------------------------
+    if c.long_req > 0 && !required.is_empty() && required.len() < c.long_req as usize {
+        let base = required.clone();
+        while required.len() < c.long_req as usize {
+            required.push(base[required.len() % base.len()]);
+        }
+        st.class(if required.len() > 64 { "required list of more than 64 entries" } else { "required list lengthened by repeats" });
+    }
+    if c.long_sup > 0 && supported.len() < c.long_sup as usize {
+        let base = supported.clone();
+        while supported.len() < c.long_sup as usize {
+            let i = supported.len();
+            // alternately a repeat and an unrelated optional type (front and back)
+            if !base.is_empty() && i % 2 == 0 {
+                supported.push(base[i % base.len()]);
+            } else {
+                supported.insert(0, 0xc000 + (i as u16 % 0x3000));
+            }
+        }
+        st.class(if supported.len() > 64 { "supported list of more than 64 entries" } else { "supported list lengthened" });
+    }
     let unknown = dedup_keep_order(&exposed.iter().copied().filter(|t| *t < 0x8000 && !supported.contains(t)).collect::<Vec<_>>());
     let missing: Vec<u16> = required.iter().copied().filter(|t| !exposed.contains(t)).collect();
     let want: Option<u16> = if !unknown.is_empty() {
@@ -352,6 +379,7 @@ pub fn run(ctx: &Ctx) -> EvidenceMeta {
         st.class_n("classification", 65536);
         ctx.merge_stats(st);
     }
+    let long = || prop_oneof![12 => Just(0u16), 1 => 2u16..=40, 1 => 60u16..=70, 1 => 120u16..=135, 1 => 250u16..=260, 1 => 0u16..=600];
     let sel = || prop_oneof![2 => any::<u64>(), 1 => Just(0u64), 2 => Just(u64::MAX), 1 => (0u32..8).prop_map(|b| !(1u64 << b))];
     ctx.proptest(
         "generated",
@@ -359,20 +387,24 @@ pub fn run(ctx: &Ctx) -> EvidenceMeta {
         move || {
             (
                 prop_oneof![
-                    gen::msg_spec(gen::seal_strategy(false, false), 6, 0).prop_map(Src::Built),
+                    gen::msg_spec(gen::seal_strategy(false, false), 6, 1).prop_map(Src::Built),
                     gen::wire_spec_wellformed(6).prop_map(Src::Wire),
                 ],
                 sel(),
                 sel(),
                 extra_types(),
                 extra_types(),
+                long(),
+                long(),
             )
-                .prop_map(|(src, sup_sel, req_sel, extra_sup, extra_req)| Case {
+                .prop_map(|(src, sup_sel, req_sel, extra_sup, extra_req, long_req, long_sup)| Case {
                     src,
                     sup_sel,
                     req_sel,
                     extra_sup,
                     extra_req,
+                    long_req,
+                    long_sup,
                 })
         },
         test,
